@@ -50,6 +50,7 @@ func init() {
 
 type fidReq struct {
 	Route   string      `json:"route"`   // request path
+	Query   string      `json:"query"`   // appended to the path on the request line ("?a=1"), "" = none
 	Headers [][2]string `json:"headers"` // raw header lines, values base64 (arbitrary bytes)
 	Names64 bool        `json:"names64"`
 	Body    string      `json:"body_b64"`
@@ -187,9 +188,9 @@ func fidRawRequest(addr string, rq fidReq) (int, error) {
 	}
 	var buf bytes.Buffer
 	if rq.Chunked {
-		fmt.Fprintf(&buf, "POST %s HTTP/1.1\r\nHost: verif.test\r\nTransfer-Encoding: chunked\r\nConnection: close\r\n", rq.Route)
+		fmt.Fprintf(&buf, "POST %s HTTP/1.1\r\nHost: verif.test\r\nTransfer-Encoding: chunked\r\nConnection: close\r\n", rq.Route+rq.Query)
 	} else {
-		fmt.Fprintf(&buf, "POST %s HTTP/1.1\r\nHost: verif.test\r\nContent-Length: %d\r\nConnection: close\r\n", rq.Route, len(body))
+		fmt.Fprintf(&buf, "POST %s HTTP/1.1\r\nHost: verif.test\r\nContent-Length: %d\r\nConnection: close\r\n", rq.Route+rq.Query, len(body))
 	}
 	for _, h := range rq.Headers {
 		name := h[0]
